@@ -302,6 +302,7 @@ fn drive<W: Fn(usize) + Sync>(n_items: usize, work: W) {
     }
     let pool = current_pool_size().max(1);
     let workers = pool.min(n_items.max(1));
+    simcore::probe::region_begin();
     let state = Shared(UnsafeCell::new(ClaimState::new(n_items, workers)));
     let worker_loop = |k: usize| loop {
         sched_point(OpKind::Claim);
